@@ -33,7 +33,7 @@ def gen(rng, ctx):
         names = [n for n, _, _ in cd["nodes"]]
         v = rng.choice(names)
         o = rng.choice([n for n in names if n != v] or names)
-        new = rng.choice([f"{o}_X", f"{o}_X_0", f"{o}_is_0", f"{o}_is_1", f"{o}_not_x", f"{o}_x_in_fi", f"{o}_0_not_in_fi", f"{o}_1_not_in_fi", f"{o}_x_in_fi_0"])
+        new = rng.choice([f"{o}_not", f"{o}_not", f"{o}_not_X", f"{o}_X_in_fi", f"{o}_X", f"{o}_X_0", f"{o}_is_0", f"{o}_is_1", f"{o}_not_x", f"{o}_x_in_fi", f"{o}_0_not_in_fi", f"{o}_1_not_in_fi", f"{o}_x_in_fi_0"])
         try:
             cd = G.cd_rename(cd, {v: new})
             kind = "hostile"
